@@ -96,12 +96,14 @@ fn dispatch_inner(prop: &str, ctx: Ctx, replay: Option<&str>) -> i32 {
         }
         "C06" => {
             crate::run::start_watchdog(std::time::Duration::from_secs(240), None);
-            let rep = c06::run(ctx);
+            let mut rep = c06::run(ctx);
+            rep.merge(c06::run_e2e(ctx));
             finish(rep, c06::meta(), ctx.tier, ctx.seed, started)
         }
         "C19" => {
             crate::run::start_watchdog(std::time::Duration::from_secs(240), None);
-            let rep = c19::run_session_level(ctx);
+            let mut rep = c19::run_session_level(ctx);
+            rep.merge(c19::run_client_level(ctx));
             finish(rep, c19::meta(), ctx.tier, ctx.seed, started)
         }
         "C02" => {
